@@ -1,7 +1,7 @@
 """C26 — bounded run-time contract check (see checks/C26_bounded.py for the contract and scope); proof kernel: see DESIGN §5 C26."""
 from vlib.thin import run_bounded_only
 
-LEVEL = "exploration"
+LEVEL = "fault_enumeration"
 
 
 def run(run, tier, seed, args):
